@@ -42,10 +42,18 @@ def run(chk, tier, seed):
             parts += ascii_parts(3, None if repl == 0 else ALPHABET_PARSE, chunks=64)
             if repl == 0:
                 parts += ascii_parts(4, ALPHABET_PARSE, chunks=21)
+        # texts with non-ASCII characters between tokens (U+00A0 is its own token kind; the others are lexer errors)
+        from lib.strcheck import unicode_parts, Part, MULTIBYTE
+        parts += unicode_parts(2, ALPHABET_PARSE, extra=())
+        if repl == 0 or tier == 'thorough':
+            for pos in range(3):
+                for mb in (MULTIBYTE[:1] if tier == 'quick' else MULTIBYTE):
+                    layout = [None, None, None]; layout[pos] = mb
+                    parts.append(Part(layout, ALPHABET_PARSE))
         tot = explore(chk, mod, job, parts, nproc=16)
         report(chk, so, tot['violations'], entry=ENTRY, prop='C23', extra_native=[('int', repl, 'c_uint32')])
     if tier == 'quick':
-        btxt = 'source file: all ASCII strings of length <= 2 and all strings of length 3 over %r; REPL line: all ASCII strings of length <= 1' % ALPHABET_PARSE.decode()
+        btxt = 'source file: all ASCII strings of length <= 2 and all strings of length 3 over %r; REPL line: all ASCII strings of length <= 1; both: all texts of <= 2 scalar values from that alphabet + U+00A0/U+00E9/U+20AC/U+1F600 with at least one non-ASCII; source file: U+00A0 at each position of a 3-scalar text' % ALPHABET_PARSE.decode()
     else:
         btxt = 'source file: all ASCII strings of length <= 3 and all strings of length 4 over %r; REPL line: all ASCII of length <= 2 and length 3 over the same alphabet' % ALPHABET_PARSE.decode()
     chk.cov['exhaustive'] = True
